@@ -27,3 +27,11 @@ add("C19",
     "functions of 3-5 parameters, name subsets up to length 3, input lengths 2-3; CrossHair per-condition timeout 60 s with a "
     "refuted reachability twin per condition",
     "DESIGN.md section 7 C19", technique="symbolic execution of the real JAX code with an uninterpreted-function primitive + z3; CrossHair (z3) on the pure-Python wrappers", engine="symjax+crosshair")
+add("C20",
+    "Bounded SMT check of the real extreme-value aggregation code with symbolic values and symbolic scale>0, exp/log as "
+    "axiomatised uninterpreted functions (Ackermannised to real arithmetic): equals s*log(sum exp(v/s)) in both layouts; "
+    "stability (no exp argument > 0, one is 0, log argument in [1,n]) for inputs of any magnitude; max <= result <= max + s*log n; "
+    "shift equivariance.",
+    "real-number model of floats; exp/log axioms are true facts about the real functions (unsat is sound; sat answers are replayed "
+    "in floats, stability counterexamples with inputs of magnitude 1e6); group sizes <= 6",
+    "DESIGN.md section 7 C20")
